@@ -22,6 +22,7 @@ import (
 	"github.com/juev/hledger-lsp/internal/ast"
 	"github.com/juev/hledger-lsp/internal/formatter"
 	"github.com/juev/hledger-lsp/internal/parser"
+	"github.com/juev/hledger-lsp/internal/server"
 )
 
 func init() {
@@ -176,7 +177,18 @@ func formatCase(doc string, formats map[string]formatter.NumberFormat, opts form
 
 func formatCaseTree(doc string, j *ast.Journal, errs []parser.ParseError, formats map[string]formatter.NumberFormat,
 	opts formatter.Options, mut string) map[string]any {
-	edits := formatter.FormatDocumentWithOptions(j, doc, formats, opts)
+	var edits []protocol.TextEdit
+	if mut == "" {
+		// the real Server.Format path: parse, skip lines with errors, format
+		edits = server.VerifFormatText(doc, formats, opts)
+	} else {
+		o := opts
+		o.SkipLines = map[int]bool{}
+		for _, e := range errs {
+			o.SkipLines[e.Pos.Line-1] = true
+		}
+		edits = formatter.FormatDocumentWithOptions(j, doc, formats, o)
+	}
 	out := map[string]any{
 		"doc": hx(doc), "tree": journalJ(j), "errs": perrsJ(errs), "formats": formatsJ(formats),
 		"opts": J{"indent": opts.IndentSize, "align": opts.AlignAmounts, "mincol": opts.MinAlignmentColumn},
@@ -191,7 +203,7 @@ func formatCaseTree(doc string, j *ast.Journal, errs []parser.ParseError, format
 		return out
 	}
 	j2, errs2 := parser.Parse(doc2)
-	second := formatter.FormatDocumentWithOptions(j2, doc2, formats, opts)
+	second := server.VerifFormatText(doc2, formats, opts)
 	out["doc2"] = hx(doc2)
 	out["tree2"] = journalJ(j2)
 	out["errs2"] = perrsJ(errs2)
@@ -204,15 +216,15 @@ func numberCase(fs string, q decimal.Decimal, nf formatter.NumberFormat) map[str
 	return map[string]any{"fmt": hx(fs), "q": decJ(q), "nf": nfJ(nf), "impl": J{
 		"np": hx(formatter.VerifExtractNumberPart(fs)), "nf": nfJ(f),
 		"out": hx(formatter.FormatNumber(q, f)), "out2": hx(formatter.FormatNumber(q, nf)),
-		"str": hx(q.String()),
+		"str": hx(q.String()), "faithful": formatter.VerifFormatIsFaithful(q, f), "faithful2": formatter.VerifFormatIsFaithful(q, nf),
 	}}
 }
 
-func ndCase() map[string]any {
+func runeRanges(pred func(rune) bool) [][]int {
 	var rs [][]int
 	lo := -1
 	for r := rune(0); r <= 0x110000; r++ {
-		d := r <= 0x10FFFF && isDigitGo(r)
+		d := r <= 0x10FFFF && pred(r)
 		if d && lo < 0 {
 			lo = int(r)
 		}
@@ -221,7 +233,11 @@ func ndCase() map[string]any {
 			lo = -1
 		}
 	}
-	return map[string]any{"impl": rs}
+	return rs
+}
+
+func ndCase() map[string]any {
+	return map[string]any{"impl": runeRanges(unicode.IsDigit)}
 }
 
 // ---------------------------------------------------------------- generators
@@ -730,7 +746,6 @@ func (g *g5) workspaceFormats() map[string]formatter.NumberFormat {
 	return m
 }
 
-func isDigitGo(r rune) bool { return unicode.IsDigit(r) }
 
 var fmtOdd = []string{"", " ", "abc", "1", "1.", ".5", "1,2,3", "1.2.3", "1 2 3", "$", "$ 1,000.00", "1,000.00 EUR x 2.5", "٣٤٥.٦٧", "1٣.٥٥ X",
 	"\xff1.00", "1.00\xe2\x82", "€1.000,00", "1 000 000,000", "  12.50  ", "a1b2.0", "1..2", "1,.2", "1 ,2", "１２.３４", "𝟏𝟐.𝟑𝟒 Z", "EUR 1,5 €"}
@@ -815,7 +830,7 @@ func genC05(c *Ctx) {
 			mut := g.mutate(j2, doc)
 			if mut != "" {
 				c.Count("tree.mutated." + mut)
-				c.Emit("c05.format", formatCaseTree(doc, j2, nil, nil, g.options(), mut))
+				c.Emit("c05.format", formatCaseTree(doc, j2, errs, nil, g.options(), mut))
 			}
 		}
 	}
